@@ -21,6 +21,7 @@
 #include "gen_video.h"
 #include "verif_rt.h"
 
+static volatile long   g_progress; /* output items of all instances so far */
 static FILE *          g_out;
 static int               g_use_barrier; /* --barrier: every encoder instance is initialised before any of them encodes */
 static pthread_barrier_t g_barrier;
@@ -98,6 +99,7 @@ static int drain(Inst *in, EbComponentType *h, int blocking, int *npk, int *eos)
             dig_bytes(&d, pkt->p_buffer, pkt->n_filled_len);
         char hx[33];
         dig_hex(&d, hx);
+        __sync_fetch_and_add(&g_progress, 1);
         EMIT("{\"inst\":%d,\"ev\":\"Packet\",\"k\":%d,\"rc\":%d,\"len\":%u,\"flags\":%u,\"dig\":\"%s\"}\n", in->idx, *npk, (int)rc,
              pkt->n_filled_len, pkt->flags, hx);
         (*npk)++;
@@ -297,6 +299,7 @@ static void *dec_main(void *arg) {
             }
             char hx[33];
             dig_hex(&d, hx);
+            __sync_fetch_and_add(&g_progress, 1);
             EMIT("{\"inst\":%d,\"ev\":\"Dec\",\"k\":%d,\"dig\":\"%s\"}\n", in->idx, n, hx);
             n++;
         }
@@ -310,11 +313,14 @@ static void *dec_main(void *arg) {
     return NULL;
 }
 
-static unsigned g_alarm_period = 300;
+static unsigned      g_alarm_period = 300;
 static void on_alarm(int s) {
     (void)s;
-    if (vrt_alarm_should_wait(g_alarm_period, 6))
-        return; /* slow or starved, not stuck: keep waiting (bounded) */
+    static long last_progress = -1;
+    if (g_progress != last_progress && vrt_alarm_should_wait(g_alarm_period, 6)) {
+        last_progress = g_progress;
+        return; /* slow or starved but still producing output: keep waiting (bounded) */
+    }
     if (g_out) {
         fprintf(g_out, "{\"ev\":\"Timeout\"}\n");
         fflush(g_out);
